@@ -9,6 +9,9 @@ fn main() {
     }
     vcore::pipe::silence_panics();
     let id = args[1].as_str();
+    if id == "C15-chunk" {
+        std::process::exit(vcore::props::c15::chunk_main(&args[2..]));
+    }
     let tier = Tier { thorough: args[2] == "thorough" };
     if args[2] == "--replay" {
         let code = vcore::props::replay::replay(id, &args[3]);
